@@ -96,9 +96,8 @@ func (w *World) cellOwner(c *mCell) *propOwner {
 	if c.owner == nil {
 		c.owner = &propOwner{name: cellName(c), vals: map[interface{}]interface{}{}}
 		c.owner.access = func() tabular.PropertyOwner {
-			cells := w.liveCellsOf(c)
-			if c.idx < len(cells) {
-				return &cells[c.idx]
+			if p := w.livePtr(c); p != nil {
+				return p
 			}
 			return nil
 		}
@@ -106,9 +105,8 @@ func (w *World) cellOwner(c *mCell) *propOwner {
 			if w.rendered {
 				return "" // renderers keep private measurement keys on cells
 			}
-			cells := w.liveCellsOf(c)
-			if c.idx < len(cells) {
-				return fmt.Sprintf("%#v", &cells[c.idx])
+			if p := w.livePtr(c); p != nil {
+				return fmt.Sprintf("%#v", p)
 			}
 			return ""
 		}
